@@ -477,6 +477,9 @@ class SpecGen:
                 parts.append(r.choice(["lit", "x", "-"]))
         if not any(p.startswith("{") for p in parts):
             parts.append("{" + self.key(scalar_only=True) + "}")
+        if self.cfg.get("env_refs") and r.random() < 0.3:
+            # a reference into the PROCESS ENVIRONMENT (confectioner's '{@env.NAME}'): set by the harness / never set
+            parts.append(r.choice(["{@env.LABSIM_E}", "{@env.LABSIM_E}", "{@env.LABSIM_UNSET}"]))
         if r.random() < 0.12:
             # a parameter the text does not refer to (labrea warns, and still evaluates it)
             params["unused"] = self.pick(lambda j: self._str_stable(j)) or self.selector_leaf()
